@@ -146,6 +146,9 @@ def enumerate_cases(tier):
         yield {"kind": "names", "names": batch}
     yield {"kind": "hashseed", "names": list(word_names())[:150] + list(itertools.islice(reduced_names(6), 0, 4000, 9))}
     open_tr = findings.open_triggers()
+    for alias in ("kind", "typeName", "type_name", "class"):
+        for snake in (True, False):
+            yield {"kind": "scope", "_isolate": True, "scope": "typename_keys", "a": "__typename", "b": alias, "snake": snake, "collides": False}
     for scope in SCOPES:
         for a, b, cls in COLLISION_PAIRS + CONTROL_PAIRS + (VARIABLE_CONTROL_PAIRS if scope == "variables" else []):
             for snake in (True, False):
@@ -254,6 +257,10 @@ def scope_project(scope, a, b, snake):
     elif scope == "input_fields":
         sdl = f"type Query {{ take(i: In): Int }}\ninput In {{ {a}: Int {b}: Int }}\n"
         q = "query GetIt($i: In) { take(i: $i) }\n"
+    elif scope == "typename_keys":
+        # __typename next to an ALIASED __typename in one selection set (a = "__typename", b = the alias)
+        sdl = "type Query { obj: T }\ntype T { x: Int }\n"
+        q = f"query GetIt {{ obj {{ __typename {b}: __typename x }} }}\n"
     elif scope == "variables":
         # a nullable variable declared BEFORE a non-null one: the method signature orders them the other way round
         sdl = "type Query { take(x: Int, y: Int!): Int }\n"
@@ -302,6 +309,8 @@ def run_scope(case, scratch):
         sent.append(body)
         if scope == "response_keys":
             return 200, {"data": {"obj": {a: 1, b: 2}}}
+        if scope == "typename_keys":
+            return 200, {"data": {"obj": {"__typename": "T", b: "T", "x": 1}}}
         if scope == "operations":
             return 200, {"data": {"one": 1} if body.get("operationName") == a else {"two": 2}}
         if scope == "enum_values":
@@ -341,6 +350,17 @@ def run_scope(case, scratch):
                     elif (getattr(obj, by_alias[a]), getattr(obj, by_alias[b])) != (1, 2):
                         fail(f"values {getattr(obj, by_alias[a])}, {getattr(obj, by_alias[b])} instead of 1, 2")
                     elif obj.model_dump(by_alias=True) != {a: 1, b: 2}:
+                        fail(f"dump {obj.model_dump(by_alias=True)}")
+            elif scope == "typename_keys":
+                v, exc = e2e.run_call(pcase, method, {})
+                if exc is not None:
+                    fail(f"response rejected: {exc!r}")
+                else:
+                    obj = v.obj
+                    by_alias = {(f.alias or n): n for n, f in type(obj).model_fields.items()}
+                    if set(by_alias) != {"__typename", b, "x"}:
+                        fail(f"model exposes keys {sorted(by_alias)} for response keys {['__typename', b, 'x']}")
+                    elif obj.model_dump(by_alias=True) != {"__typename": "T", b: "T", "x": 1}:
                         fail(f"dump {obj.model_dump(by_alias=True)}")
             elif scope == "input_fields":
                 In = pkg.In
